@@ -251,12 +251,46 @@ def r_traversal(repo, rep, R='R7.4'):
     rep.floor('encoder walks', n, 14)
 
 
+def r_deriv_measures(repo, rep, R='R7.5'):
+    """deriv_of lays out the leaf lines and the rule bars with two separate width computations; they must measure words and
+    categories with the same function, or the bars drift away from the leaves they combine."""
+    mod = repo.module('depccg/printer/deriv.py')
+    fn = mod.get('deriv_of')
+    rec = mod.get('deriv_of.rec')
+    w = '%s:%s deriv_of' % (mod.rel, fn.lineno)
+
+    def measures(f, unroll=1):
+        word, cat = set(), set()
+        for st, o in SymExec(f, unroll=unroll).run():
+            for e in st.events:
+                if e[0] != 'call' or len(e[1][2]) != 1:
+                    continue
+                a = e[1][2][0]
+                callee = show(e[1][1])
+                if callee in ('str', 'max', 'print', 'rec'):
+                    continue
+                if a[0] == 'attr' and a[2] == 'word':
+                    word.add(callee)
+                elif a[0] == 'call' and a[1] == N('str') and a[2] and a[2][0][0] == 'attr' and a[2][0][2] == 'cat':
+                    cat.add(callee)
+        return word, cat
+    hw, hc = measures(ast.Module(body=[s_ for s_ in fn.body if not isinstance(s_, ast.FunctionDef)], type_ignores=[]) if False else fn)
+    rw, rc_ = measures(rec)
+    allw, allc = hw | rw, hc | rc_
+    rep.check(len(allw) == 1 and len(allc) == 1 and bool(rw) and bool(hw), R, w, 'deriv:measures',
+              'leaf lines and rule bars measure words with %s and categories with %s everywhere' % (sorted(allw), sorted(allc)),
+              'leaf lines and rule bars use different width functions (words: header %s / bars %s; categories: header %s / bars %s): bars no longer cover their leaves'
+              % (sorted(hw), sorted(rw), sorted(hc), sorted(rc_)))
+
+
 def check(repo, rep, tier):
     rep.rule('R7.1', 'conll head assignment from head flags')
     rep.rule('R7.2', 'head flag polarity of the AUTO-family encoders')
     rep.rule('R7.3', 'sentence / n-best numbering of every loop nest over results')
     rep.rule('R7.4', 'traversal completeness of every encoder')
+    rep.rule('R7.5', 'sibling width computations of the deriv layout use the same measure')
     r_conll_heads(repo, rep)
     r_polarity(repo, rep)
     r_numbering(repo, rep)
     r_traversal(repo, rep)
+    r_deriv_measures(repo, rep)
